@@ -116,10 +116,10 @@ def case_list(thorough):
     # compound shapes over the synthetic system (isolated and partially connected units
     # inside products and quotients with ordinary units)
     comp_atoms = ["X1", "X3", "X4", "ZA", "PA", "SV", "SW", "FQ", "Meter", "Second",
-                  "FN", "FS", "SZ", "Gram", "DT", "DQ", "DL", "Radian", "Degree"]
+                  "FN", "FS", "SZ", "Gram", "DT", "DQ", "DL", "Radian", "Degree", "One"]
     if not thorough:
         comp_atoms = [a for a in comp_atoms if a not in ("X3", "SW", "FQ", "DL", "Radian", "SV")]
-    syn_set = set(comp_atoms) - {"Meter", "Second", "Gram"}
+    syn_set = set(comp_atoms) - {"Meter", "Second", "Gram", "One"}
     shapes = []
     exps1 = (1, -1, 2)
     for a in comp_atoms:
@@ -128,16 +128,17 @@ def case_list(thorough):
     import itertools as _it
 
     for a, b in _it.combinations(comp_atoms, 2):
-        for e in ((1, 1), (1, -1), (-1, 1), (-1, -1)) + (((2, -1), (-1, 2), (1, 2)) if thorough else ()):
+        for e in ((1, 1), (1, -1), (-1, 1), (-1, -1)) + (((2, -1),) if thorough else ()):
             shapes.append(((a, e[0]), (b, e[1])))
-    tri_atoms = (["X1", "X4", "ZA", "PA", "SV", "SW", "Meter", "Second", "FN", "FS", "SZ", "Gram", "DT", "DQ"] if thorough
-                 else ["X4", "PA", "Second", "FN", "FS", "SZ", "DT", "DQ"])
+    tri_atoms = (["X1", "X4", "ZA", "PA", "SV", "Second", "FN", "FS", "SZ", "DT", "DQ"] if thorough
+                 else ["X4", "PA", "FN", "FS", "SZ", "DT"])
     for a, b, c in _it.combinations(tri_atoms, 3):
         for e in _it.product((1, -1), repeat=3):
             shapes.append(((a, e[0]), (b, e[1]), (c, e[2])))
     vec = {"X1": (1, 0, 0), "X3": (1, 0, 0), "X4": (1, 0, 0), "ZA": (2, 0, 0), "PA": (2, 0, 0), "SV": (1, -1, 0), "SW": (1, -1, 0),
            "FQ": (0, -1, 0), "Meter": (1, 0, 0), "Second": (0, 1, 0), "FN": (1, -2, 1), "FS": (1, -2, 1), "SZ": (1, -1, 0),
-           "Gram": (0, 0, 1), "DT": (0, 0, 0), "DQ": (0, 0, 0), "DL": (0, 0, 0), "Radian": (0, 0, 0), "Degree": (0, 0, 0)}
+           "Gram": (0, 0, 1), "DT": (0, 0, 0), "DQ": (0, 0, 0), "DL": (0, 0, 0), "Radian": (0, 0, 0), "Degree": (0, 0, 0),
+           "One": (0, 0, 0)}
     by_dim = {}
     for sh in shapes:
         d = tuple(sum(vec[n][k] * e for n, e in sh) for k in range(3))
@@ -208,7 +209,7 @@ def _resolve(case):
         def shape(spec):
             u = None
             for n, e in spec:
-                f = (_SYN[n] if n in _SYN else getattr(si, n)) ** e
+                f = (_SYN[n] if n in _SYN else (measured.One if n == "One" else getattr(si, n))) ** e
                 u = f if u is None else u * f
             return u
 
@@ -279,6 +280,41 @@ def case_name(case):
     return f"{case[1]}^{case[2]} -> {case[3]}^{case[4]}"
 
 
+# which island of the synthetic definition graph an atom belongs to, and with what degree
+# (ZA = X1^2, SZ = 7 X1/s, FS = 11 g X1/s^2 hang off the X island; nothing links an island to
+# another or to the SI units).  Two shapes whose island degrees differ cannot be converted
+# into each other by any chain of declared equivalences.
+ISLAND = {
+    "X1": {"X": 1}, "X3": {"X": 1}, "ZA": {"X": 2}, "SZ": {"X": 1}, "FS": {"X": 1}, "X4": {"X4": 1}, "PA": {"PA": 1},
+    "FN": {"FN": 1}, "FQ": {"FQ": 1}, "DL": {"DL": 1}, "SV": {"S": 1}, "SW": {"S": 1}, "DT": {"D": 1}, "DQ": {"D": 1},
+}
+MUST_FAIL = {"in_unit": "E:ConversionNotFound", "add": "E:ConversionNotFound", "sub": "E:ConversionNotFound",
+             "eq": "v:False", "lt": "E:TypeError", "sorted": "E:TypeError"}
+
+
+def island_degrees(shape):
+    d = {}
+    for n, e in shape:
+        for k, w_ in ISLAND.get(n, {}).items():
+            d[k] = d.get(k, 0) + w_ * e
+    return {k: v for k, v in d.items() if v}
+
+
+DIMENSIONLESS_ISLANDS = {"D", "DL"}
+
+
+def impossible_class(case):
+    """Input-side class of an impossible pair (for keying findings)."""
+    da, db = island_degrees(case[1]), island_degrees(case[2])
+    diff = {k for k in set(da) | set(db) if da.get(k, 0) != db.get(k, 0)}
+    only_one = any([tuple(x) for x in sh] == [("One", 1)] for sh in (case[1], case[2]))
+    if diff <= DIMENSIONLESS_ISLANDS and not only_one:
+        return "a dimensionless unit beside other factors (or another power of itself) differs"
+    if diff <= DIMENSIONLESS_ISLANDS:
+        return "a dimensionless unit against One"
+    return "across unconnected definitions"
+
+
 def judge(rep, cases, rows, rows_O):
     n_eval = 0
     nontrivial = set()
@@ -286,8 +322,19 @@ def judge(rep, cases, rows, rows_O):
     for case, row, rowO in zip(cases, rows, rows_O):
         if row is None:
             continue
+        impossible = case[0] == "comp" and island_degrees(case[1]) != island_degrees(case[2])
         for op, oc, ocO in zip(OPS, row, rowO):
             n_eval += 1
+            if impossible and oc.split("@")[0] != MUST_FAIL[op]:
+                outcomes["impossible pair: not refused"] = outcomes.get("impossible pair: not refused", 0) + 1
+                if not oc.startswith("E:"):
+                    rep.violation(
+                        "impossible_conversion_not_refused",
+                        f"{op}: {impossible_class(case)}",
+                        f"{op} on 3 {case_name(case).replace(' -> ', ' and 2 ')} gave {oc}: no chain of declared equivalences links the two "
+                        f"(island degrees {island_degrees(case[1])} vs {island_degrees(case[2])}); it must fail with {MUST_FAIL[op]}",
+                        {"case": case, "op": op},
+                    )
             cls = oc.split("@")[0] if oc.startswith("E:") else "value"
             outcomes[f"{op}:{cls}"] = outcomes.get(f"{op}:{cls}", 0) + 1
             nontrivial.add((case_name(case), op))
@@ -357,5 +404,7 @@ def replay(obj, kind=None):
     oc, ocO = row[i], rowO[i]
     bad = oc != ocO
     if oc.startswith("E:") and oc[2:].split("@")[0] not in ALLOWED[op]:
+        bad = True
+    if case[0] == "comp" and island_degrees(case[1]) != island_degrees(case[2]) and not oc.startswith("E:") and oc != MUST_FAIL[op]:
         bad = True
     return bad, f"{op} on {case_name(case)}: python -> {oc}; python -O -> {ocO}"
